@@ -6,8 +6,8 @@ Property theorems only (helper lemmas are in `BoxoModel/C32/Lemmas.lean`).
 The CID / peer-ID codecs (`cid.Decode`, `Cid.StringOfBase`, `peer.Decode`), the DNSLink predicate
 (`hasDNSLinkRecord`) and net/url's host check are PARAMETERS (`Env`): every theorem holds for all of
 them, with the few facts it needs about them stated as hypotheses on the strings at hand.
-`handle true` / `toSubdomainURL true` is the code after the `fix:` commit that keeps the fragment;
-`… false` is the tree before it.
+`handle true true` / `toSubdomainURL true` is the code after the two `fix:` commits (fragment kept in
+redirects; canonical-CID test on the effective host); a `false` argument is the tree before the respective fix.
 -/
 namespace C32
 
@@ -76,9 +76,15 @@ theorem c32_inline_chars (s l : Bytes) (h : inlineDNSLink s = some l) :
 
 /-! ## path → subdomain URL → path -/
 
-/-- what the subdomain request of a client that follows the redirect looks like -/
+/-- `rq` is a request a client (possibly through a reverse proxy that moves the public host into
+X-Forwarded-Host) sends when it follows the redirect to `u` -/
+def Follows (rq : Req) (u : URL) : Prop := effectiveHost rq = u.host ∧ rq.path = u.path
+
+/-- the plain case: Host = Location host, no X-Forwarded-Host -/
 def follow (u : URL) : Req :=
   { host := u.host, path := u.path, rawQuery := u.rawQuery, fragment := [], https := u.https }
+
+theorem follows_follow (u : URL) : Follows (follow u) u := ⟨rfl, rfl⟩
 
 /-- the configuration facts the round trip needs: `gwHost` is a known subdomain gateway, no proper
 label-suffix of it is a gateway of its own, the subdomain host itself is not configured as a
@@ -112,7 +118,7 @@ theorem c32_roundtrip_cid (env : Env) (cfg : Config) (gwHost ns id : Bytes) (res
       u.host = L ++ 46 :: (ns ++ 46 :: gwHost) ∧ L.length ≤ 63 ∧
       u.path = locationPath (rest.getD []) ∧ u.rawQuery = r.rawQuery ∧ u.fragment = r.fragment ∧
       u.https = r.https ∧
-      handle true env cfg (follow u) = .next ((47 :: ns ++ 47 :: L) ++ u.path) (.subdomain gwHost) ∧
+      (∀ rq, Follows rq u → handle true true env cfg rq = .next ((47 :: ns ++ 47 :: L) ++ u.path) (.subdomain gwHost)) ∧
       (∃ c', env.codecs.decode L = some c' ∧ c'.mh = c.mh ∧
         (isPeerIDNamespace ns = true → c'.codec = libp2pKey)) := by
   have hlen : L.length ≤ 63 := (c32_label_len [] _ _ L).2 hL
@@ -122,9 +128,10 @@ theorem c32_roundtrip_cid (env : Env) (cfg : Config) (gwHost ns id : Bytes) (res
     rw [subdomainURLOf_cid true env gwHost r _ ns id _ hns c L hd hL hne hu]
     simp
   · have hksd := knownSubdomainDetails_hit cfg L ns gwHost gw hcfg.known hns hdot hcfg.noSuffixGateway
-    simp only [follow]
-    exact handle_subdomain_cid true env cfg gwHost ns L _ _ _ _ gw _ hcfg.subdomainNotGateway hksd
+    intro rq hf
+    have := handle_subdomain_cid true env cfg gwHost ns L rq gw _ hf.1 hcfg.subdomainNotGateway hksd
       hcfg.useSubdomains hcfg.servesPath hdecL hlen (by intro hp; simp [hp])
+    rw [this, hf.2]
   · exact ⟨_, hdecL, rfl, by intro hp; simp [hp]⟩
 
 /-- **Round trip, DNSLink names (inlined).** A request `/ipns/name[/rest]` for a fully qualified name
@@ -143,7 +150,7 @@ theorem c32_roundtrip_dnslink_inlined (env : Env) (cfg : Config) (gwHost name : 
     ∃ u, toSubdomainURL true env gwHost (47 :: (IPNS ++ 47 :: (name ++ tailOf rest))) r gw.inlineDNSLink = .to u ∧
       u.host = inlineRaw name ++ 46 :: (IPNS ++ 46 :: gwHost) ∧
       u.path = locationPath (rest.getD []) ∧ u.rawQuery = r.rawQuery ∧ u.fragment = r.fragment ∧
-      handle true env cfg (follow u) = .next (ipnsSlash ++ name ++ u.path) (.subdomain gwHost) := by
+      (∀ rq, Follows rq u → handle true true env cfg rq = .next (ipnsSlash ++ name ++ u.path) (.subdomain gwHost)) := by
   have hns : isSubdomainNamespace IPNS = true := by decide
   have h1 : 47 ∉ IPNS := by decide
   have hdot : 46 ∉ IPNS := by decide
@@ -166,14 +173,14 @@ theorem c32_roundtrip_dnslink_inlined (env : Env) (cfg : Config) (gwHost name : 
       ↓reduceIte, Bool.and_false, Bool.false_and, beq_self_eq_true, Bool.and_self, Bool.and_true]
   refine ⟨_, hurl, by simp, rfl, rfl, rfl, ?_⟩
   have hksd := knownSubdomainDetails_hit cfg (inlineRaw name) IPNS gwHost gw hcfg.known hns hdot hcfg.noSuffixGateway
-  have hh := handle_subdomain_name true env cfg gwHost (inlineRaw name) (locationPath (rest.getD [])) r.rawQuery []
-    r.https gw hcfg.subdomainNotGateway hksd hcfg.useSubdomains hcfg.servesPath hnc'
+  intro rq hf
+  have hh := handle_subdomain_name true true env cfg gwHost (inlineRaw name) rq gw (by rw [hf.1]; simp)
+    hcfg.subdomainNotGateway hksd hcfg.useSubdomains hcfg.servesPath hnc'
   have hnd : contains 46 (inlineRaw name) = false := contains_false.mpr (not_dot_mem_inlineRaw name)
   have hda : contains 45 (inlineRaw name) = true := contains_iff.mpr (dash_mem_inlineRaw name hfq)
   rw [uninline_inlineRaw name hsafe] at hh
   simp only [hnd, hda, hrec, Bool.not_false, Bool.and_self, ↓reduceIte] at hh
-  simp only [follow]
-  simpa using hh
+  rw [hh, hf.2]
 
 /-- **Round trip, DNSLink names (not inlined).** When the name is kept as it is (no inlining on this
 gateway and plain HTTP, or no DNSLink record for it) the redirect goes to `name.ipns.gwHost` and the
@@ -188,7 +195,7 @@ theorem c32_roundtrip_dnslink_plain (env : Env) (cfg : Config) (gwHost name : By
     ∃ u, toSubdomainURL true env gwHost (47 :: (IPNS ++ 47 :: (name ++ tailOf rest))) r gw.inlineDNSLink = .to u ∧
       u.host = name ++ 46 :: (IPNS ++ 46 :: gwHost) ∧
       u.path = locationPath (rest.getD []) ∧ u.rawQuery = r.rawQuery ∧ u.fragment = r.fragment ∧
-      handle true env cfg (follow u) = .next ((47 :: IPNS ++ 47 :: name) ++ u.path) (.subdomain gwHost) := by
+      (∀ rq, Follows rq u → handle true true env cfg rq = .next ((47 :: IPNS ++ 47 :: name) ++ u.path) (.subdomain gwHost)) := by
   have hns : isSubdomainNamespace IPNS = true := by decide
   have h1 : 47 ∉ IPNS := by decide
   have hdot : 46 ∉ IPNS := by decide
@@ -209,11 +216,11 @@ theorem c32_roundtrip_dnslink_plain (env : Env) (cfg : Config) (gwHost name : By
           ↓reduceIte, Bool.and_false, Bool.false_and, beq_self_eq_true, Bool.and_self, Bool.and_true]
   refine ⟨_, hurl, by simp, rfl, rfl, rfl, ?_⟩
   have hksd := knownSubdomainDetails_hit cfg name IPNS gwHost gw hcfg.known hns hdot hcfg.noSuffixGateway
-  have hh := handle_subdomain_name true env cfg gwHost name (locationPath (rest.getD [])) r.rawQuery []
-    r.https gw hcfg.subdomainNotGateway hksd hcfg.useSubdomains hcfg.servesPath hnc
+  intro rq hf
+  have hh := handle_subdomain_name true true env cfg gwHost name rq gw (by rw [hf.1]; simp)
+    hcfg.subdomainNotGateway hksd hcfg.useSubdomains hcfg.servesPath hnc
   simp only [hc46, Bool.not_true, Bool.false_and, Bool.false_eq_true, ↓reduceIte] at hh
-  simp only [follow]
-  simpa using hh
+  rw [hh, hf.2]
 
 /-- **The remainder.** The path a client sends after the redirect is `/rest`: exactly the tail of the
 original path when that tail is `/` or `/rest` with `rest` not starting with a slash (a bare `/ns/id`
@@ -247,6 +254,24 @@ theorem c32_unfixed_fragment_dropped (env : Env) (gwHost : Bytes) (r : Req) (inl
   all_goals first | (simp at h; done) | (simp_all; done) | (simp at h; subst h; simp)
 
 
+/-! ## host → DNSLink content path -/
+
+/-- **A DNSLink host is served under its DNSLink name.** Whenever a request is handed to the next handler as a
+DNSLink site (known-gateway branch and unknown-hostname branch alike), the host in the context is the effective
+host (Host, or X-Forwarded-Host), a DNSLink record was found for it, and the content path is
+`/ipns/<host without its port><request path>`: the name the record was looked up under. -/
+theorem c32_dnslink_host_name (kf ch : Bool) (env : Env) (cfg : Config) (r : Req) (p h : Bytes)
+    (hn : handle kf ch env cfg r = .next p (.dnslink h)) :
+    h = effectiveHost r ∧ env.hasDNSLink h = true ∧ p = ipnsSlash ++ stripPort h ++ r.path := by
+  unfold handle at hn
+  simp only [] at hn
+  repeat' split at hn
+  all_goals first
+    | (simp at hn; done)
+    | (simp only [Out.next.injEq, Ctx.dnslink.injEq] at hn; obtain ⟨rfl, rfl⟩ := hn; simp_all; done)
+    | (subst hn; rename_i hq; exact absurd hq (redir_opt_not_next _ _ _ _))
+    | (cases hn; simp_all; done)
+
 /-! ## non-vacuity: a concrete gateway, a toy codec table, and the two steps evaluated -/
 
 namespace Example
@@ -276,23 +301,40 @@ example : Serves cfg dweb gw IPFS bafy :=
     subst this; decide, by decide, by decide⟩
 
 /-- `/ipfs/Qm/a?x=1#f` ⇒ 301 to `http://bafy.ipfs.dweb.link/a?x=1#f` ⇒ next handler sees `/ipfs/bafy/a` -/
-example : handle true env cfg (req [47, 105, 112, 102, 115, 47, 81, 109, 47, 97]) =
+example : handle true true env cfg (req [47, 105, 112, 102, 115, 47, 81, 109, 47, 97]) =
     .redirect { https := false, host := [98, 97, 102, 121, 46, 105, 112, 102, 115, 46, 100, 119, 101, 98, 46, 108, 105, 110, 107], path := [47, 97], rawQuery := [120, 61, 49], fragment := [102] } := by
   decide +kernel
-example : handle true env cfg (follow { https := false, host := [98, 97, 102, 121, 46, 105, 112, 102, 115, 46, 100, 119, 101, 98, 46, 108, 105, 110, 107], path := [47, 97], rawQuery := [120, 61, 49], fragment := [102] }) =
+example : handle true true env cfg (follow { https := false, host := [98, 97, 102, 121, 46, 105, 112, 102, 115, 46, 100, 119, 101, 98, 46, 108, 105, 110, 107], path := [47, 97], rawQuery := [120, 61, 49], fragment := [102] }) =
     .next [47, 105, 112, 102, 115, 47, 98, 97, 102, 121, 47, 97] (.subdomain dweb) := by
   decide +kernel
 /-- `/ipns/en.wiki-x.org/` ⇒ 301 to `en-wiki--x-org.ipns.dweb.link/` ⇒ `/ipns/en.wiki-x.org/` -/
-example : handle true env cfg (req [47, 105, 112, 110, 115, 47, 101, 110, 46, 119, 105, 107, 105, 45, 120, 46, 111, 114, 103, 47]) =
+example : handle true true env cfg (req [47, 105, 112, 110, 115, 47, 101, 110, 46, 119, 105, 107, 105, 45, 120, 46, 111, 114, 103, 47]) =
     .redirect { https := false, host := [101, 110, 45, 119, 105, 107, 105, 45, 45, 120, 45, 111, 114, 103, 46, 105, 112, 110, 115, 46, 100, 119, 101, 98, 46, 108, 105, 110, 107], path := [47], rawQuery := [120, 61, 49], fragment := [102] } := by
   decide +kernel
-example : handle true env cfg { host := [101, 110, 45, 119, 105, 107, 105, 45, 45, 120, 45, 111, 114, 103, 46, 105, 112, 110, 115, 46, 100, 119, 101, 98, 46, 108, 105, 110, 107], path := [47], rawQuery := [], fragment := [], https := false } =
+example : handle true true env cfg { host := [101, 110, 45, 119, 105, 107, 105, 45, 45, 120, 45, 111, 114, 103, 46, 105, 112, 110, 115, 46, 100, 119, 101, 98, 46, 108, 105, 110, 107], path := [47], rawQuery := [], fragment := [], https := false } =
     .next [47, 105, 112, 110, 115, 47, 101, 110, 46, 119, 105, 107, 105, 45, 120, 46, 111, 114, 103, 47] (.subdomain dweb) := by
   decide +kernel
 /-- the tree before the fix drops the fragment -/
-example : handle false env cfg (req [47, 105, 112, 102, 115, 47, 81, 109, 47, 97]) =
+example : handle false true env cfg (req [47, 105, 112, 102, 115, 47, 81, 109, 47, 97]) =
     .redirect { https := false, host := [98, 97, 102, 121, 46, 105, 112, 102, 115, 46, 100, 119, 101, 98, 46, 108, 105, 110, 107], path := [47, 97], rawQuery := [120, 61, 49], fragment := [] } := by
   decide +kernel
+/-- a gateway hostname with a DNSLink record, asked with a port (via Host and via X-Forwarded-Host) for a path it
+does not handle: served as `/ipns/dweb.link/docs` (port stripped), context host with the port -/
+def envGw : Env := { env with hasDNSLink := fun s => s == [100, 119, 101, 98, 46, 108, 105, 110, 107, 58, 56, 48, 56, 48] || s == dweb }
+example : handle true true envGw cfg { host := [100, 119, 101, 98, 46, 108, 105, 110, 107, 58, 56, 48, 56, 48], path := [47, 100, 111, 99, 115], rawQuery := [], fragment := [], https := false } =
+    .next [47, 105, 112, 110, 115, 47, 100, 119, 101, 98, 46, 108, 105, 110, 107, 47, 100, 111, 99, 115] (.dnslink [100, 119, 101, 98, 46, 108, 105, 110, 107, 58, 56, 48, 56, 48]) := by decide +kernel
+example : handle true true envGw cfg { host := [112, 114, 111, 120, 121], xfh := [100, 119, 101, 98, 46, 108, 105, 110, 107, 58, 56, 48, 56, 48], path := [47, 100, 111, 99, 115], rawQuery := [], fragment := [], https := false } =
+    .next [47, 105, 112, 110, 115, 47, 100, 119, 101, 98, 46, 108, 105, 110, 107, 47, 100, 111, 99, 115] (.dnslink [100, 119, 101, 98, 46, 108, 105, 110, 107, 58, 56, 48, 56, 48]) := by decide +kernel
+/-- Before the fix `self-redirect-x-forwarded-host`: the canonical-CID test looked at the raw Host header, so
+behind a proxy that only sets X-Forwarded-Host the canonical subdomain request `bafy.ipfs.dweb.link/a` was
+redirected to itself (an endless redirect). -/
+theorem c32_unfixed_xfh_self_redirect_counterexample :
+    handle true false env cfg { host := [112, 114, 111, 120, 121], xfh := [98, 97, 102, 121, 46, 105, 112, 102, 115, 46, 100, 119, 101, 98, 46, 108, 105, 110, 107], path := [47, 97], rawQuery := [], fragment := [], https := false } =
+      .redirect { https := false, host := [98, 97, 102, 121, 46, 105, 112, 102, 115, 46, 100, 119, 101, 98, 46, 108, 105, 110, 107], path := [47, 97], rawQuery := [], fragment := [] } := by
+  decide +kernel
+/-- the repaired code serves the same request -/
+example : handle true true env cfg { host := [112, 114, 111, 120, 121], xfh := [98, 97, 102, 121, 46, 105, 112, 102, 115, 46, 100, 119, 101, 98, 46, 108, 105, 110, 107], path := [47, 97], rawQuery := [], fragment := [], https := false } =
+    .next [47, 105, 112, 102, 115, 47, 98, 97, 102, 121, 47, 97] (.subdomain dweb) := by decide +kernel
 example : inlineSafe name = true ∧ 46 ∈ name := by decide
 
 end Example
